@@ -32,25 +32,32 @@ inductive Inbound where
 def distinctStrs (xs : List String) : List String :=
   xs.foldl (fun acc x => if acc.contains x then acc else acc ++ [x]) []
 
-/-- `get_inbound_criteria_status(task_id, route)` -/
-def inboundStatus (c : Cond) (taskId : String) (route : Nat) : Inbound :=
-  let inbound := c.graph.prevTransitions taskId
-  let srcs := distinctStrs (inbound.map (·.src))
-  let requirement : Nat := match c.graph.barrier? taskId with
-    | some none => srcs.length
-    | some (some n) => n
-    | none => 1
-  -- per source: none = no record, some b = or of the satisfied flags
-  let evalSrc (src : String) : Option Bool :=
-    match c.st.getRec? (src, route) with
-    | none => none
-    | some r =>
-      some ((inbound.filter (·.src == src)).any fun e =>
-        (r.next.find? (fun p => p.1 == (taskId, e.key))).any (·.2))
-  let evals := srcs.map evalSrc
-  if (evals.filter (· == some true)).length ≥ requirement then .satisfied
+/-- per inbound task: `none` = no record on the route yet, `some b` = whether some transition of
+    its latest record into `taskId` was decided true -/
+def evalSrc (c : Cond) (taskId : String) (route : Nat) (src : String) : Option Bool :=
+  match c.st.getRec? (src, route) with
+  | none => none
+  | some r =>
+    some (((c.graph.prevTransitions taskId).filter (·.src == src)).any fun e =>
+      (r.next.find? (fun p => p.1 == (taskId, e.key))).any (·.2))
+
+/-- the number of inbound tasks a barrier requires (`get_barrier(task) or 1`) -/
+def barrierRequirement (c : Cond) (taskId : String) (nsrcs : Nat) : Nat :=
+  match c.graph.barrier? taskId with
+  | some none => nsrcs
+  | some (some n) => n
+  | none => 1
+
+/-- `get_inbound_criteria_status` with the (set-ordered) list of distinct inbound tasks explicit -/
+def inboundStatusWith (c : Cond) (taskId : String) (route : Nat) (srcs : List String) : Inbound :=
+  let evals := srcs.map (evalSrc c taskId route)
+  if (evals.filter (· == some true)).length ≥ barrierRequirement c taskId srcs.length then .satisfied
   else if evals.any (· == none) && (c.st.hasActive || c.st.hasStaged) then .wip
   else .notSatisfied
+
+/-- `get_inbound_criteria_status(task_id, route)` -/
+def inboundStatus (c : Cond) (taskId : String) (route : Nat) : Inbound :=
+  inboundStatusWith c taskId route (distinctStrs ((c.graph.prevTransitions taskId).map (·.src)))
 
 /-- `_has_next(task_id, route, eval_join_ready)` -/
 def hasNext (c : Cond) (k : TaskKey) (evalJoinReady : Bool) : Bool :=
@@ -406,7 +413,7 @@ def tkEventStep (c : Cond) (r : Rec) (ev : Event) : Except Err StepRes :=
   | .engine cmd => .ok (tkOnEngineEvent cur cmd)
   | .item idx s _ _ =>
     match c.st.getStaged? (r.id, r.route) with
-    | none => .error .typeError
+    | none => .ok (tkOnItemEventNoStaged cur s)
     | some x => match x.items with
       | none => .error .keyError
       | some its =>
@@ -587,10 +594,10 @@ def noteEvent (k : TaskKey) (staged0 : Option Staged) (ev : Event) : M Unit := d
     | _ => pure () : M Unit)
 
 /-- phase 3: a record that became `retrying` is re-staged with a bumped tally -/
-def restageRetry (k : TaskKey) (idx : Nat) : M Unit := do
+def restageRetry (k : TaskKey) (idx : Nat) (oldStatus : Status) : M Unit := do
   let c ← get
   let r ← liftOpt c.st.sequence[idx]? .indexError
-  if r.status == some .retrying then do
+  if r.status == some .retrying && oldStatus != .retrying then do
     let rs ← liftOpt r.retry .keyError
     let rs := { rs with tally := rs.tally + 1 }
     modifySt fun st => ((st.updateRec idx fun r => { r with retry := some rs }).removeStaged k).addStaged
@@ -658,7 +665,7 @@ def updateTaskStateAux : Nat → TaskKey → Event → M Unit
     let c ← get
     let r ← liftOpt c.st.sequence[idx]? .indexError
     let newStatus := r.status.getD .unset
-    restageRetry k idx
+    restageRetry k idx oldStatus
     let retry ← (if newStatus.isCompleted then completedRetryDecision E k idx ts newStatus ev
                  else pure false : M Bool)
     if retry then updateTaskStateAux fuel k (.engine .retry_)
